@@ -392,6 +392,93 @@ def dstep (s : DSt) (kind : String) (args impl : List String) : Option (DSt × S
 
 def dmachine : Machine := { σ := DSt, name := "dsp", init := dinit, step := dstep }
 
+/-! ### machine `cslot`: one real scheduler with a hand-driven event loop (connection slot accounting) -/
+
+structure CSt where
+  sw : Swarm
+  n : Nat                       -- remote peers p1..pn are model peers 1..n, the agent is peer 0
+  live : List Nat := []         -- implementation side: peers whose connection was established and has not ended
+  desync : Option String := none
+
+def cinit (cfg : List String) : Option CSt := do
+  let maxc ← (kv? cfg "maxconn").bind nat?
+  let n ← (kv? cfg "peers").bind nat?
+  let mi := MetaInfo.ofBlob crc32 4 [1, 2, 3, 4, 5]
+  let agent : Peer := { tor := KrakenModel.AgentTorrent.init mi }
+  let peers := agent :: List.replicate n { tor := seedState mi [1, 2, 3, 4, 5] }
+  some { sw := { cfg := { maxConns := maxc, pipeline := 3 }, peers := peers }, n := n }
+
+def cname (k : Nat) : String := s!"p{k}"
+
+def cnames (ks : List Nat) : String := listTok ((ks.eraseDups.toArray.qsort (· < ·)).toList.map cname)
+
+def cstepCore (s : CSt) (kind : String) (args impl : List String) : Option (CSt × StepOut) :=
+  if kind ≠ "op" then none else
+  let implRes := (kv? impl "res").getD "?"
+  let implActive := (list? ((kv? impl "active").getD "-")).filterMap peer?
+  let implBl := (list? ((kv? impl "bl").getD "-")).filterMap peer?
+  let implFree := (kv? impl "free").getD "?"
+  let pa? := s.sw.peers[0]?
+  match pa? with
+  | none => none
+  | some pa =>
+    let maxc := s.sw.cfg.maxConns
+    let pre : Option (CSt × String × List String) :=
+      match args with
+      | ["dialfail", kT] => do
+        let k ← peer? kT
+        if k = 0 ∨ k > s.n then none else
+        if pa.conns.contains k || pa.conns.length ≥ maxc then some (s, "nopending", [])
+        else some ({ s with sw := KrakenModel.Swarm.step crc32 s.sw (.dialfail 0 k) }, "ok", [])
+      | ["incoming", kT] => do
+        let k ← peer? kT
+        if k = 0 ∨ k > s.n then none else
+        -- the remote peer dials the agent (its own blacklist is not part of this harness)
+        let sw0 := KrakenModel.Swarm.step crc32 s.sw (.unblacklist k 0)
+        let sw' := KrakenModel.Swarm.step crc32 sw0 (.connect k 0)
+        let ok := sw' != sw0
+        let live' := if implRes == "active" then k :: s.live else s.live
+        some ({ s with sw := sw', live := live' }, if ok then "active" else "rejected", [])
+      | ["close", kT] => do
+        let k ← peer? kT
+        if k = 0 ∨ k > s.n then none else
+        let pf := if implActive.contains k then
+          [s!"side=impl key=closed-conn-keeps-slot the connection to {cname k} ended but still occupies a connection slot"] else []
+        some ({ s with sw := KrakenModel.Swarm.step crc32 s.sw (.disconnect 0 k), live := s.live.filter (· != k) }, "closed", pf)
+      | ["tick", _] => some (s, "ok", [])
+      | ["state"] => some (s, "ok", [])
+      | _ => none
+    match pre with
+    | none => none
+    | some (s1, res, pf0) =>
+      -- blacklist entries that expired (the clock moved): the implementation's list tells which
+      let s2 := match s1.sw.peers[0]? with
+        | some p1 => (p1.blacklist.eraseDups.filter fun k => !implBl.contains k).foldl
+            (fun (st : CSt) k => { st with sw := KrakenModel.Swarm.step crc32 st.sw (.unblacklist 0 k) }) s1
+        | none => s1
+      let (conns, bl) := match s2.sw.peers[0]? with | some p2 => (p2.conns, p2.blacklist) | none => ([], [])
+      let obs := [s!"res={res}", s!"active={cnames conns}", s!"sat={boolTok (conns.length == maxc)}",
+                  s!"free={boolTok (conns.length < maxc)}", s!"bl={cnames bl}"]
+      let pf :=
+        (implActive.filter fun k => !s2.live.contains k).map (fun k =>
+          s!"side=impl key=dead-conn-holds-slot {cname k} is listed as an active connection although its connection ended or never existed") ++
+        (if implFree == "0" && s2.live.length < maxc then
+          [s!"side=impl key=slot-unavailable-below-limit no new connection is admitted with {s2.live.length} of {maxc} live connections"] else [])
+      some (s2, { obs := obs, branch := s!"c.{args.headD "?"}.{res}", propfails := (pf0 ++ pf).eraseDups })
+
+def cslotStep (s : CSt) (kind : String) (args impl : List String) : Option (CSt × StepOut) :=
+  if kind = "op" ∧ args = ["done"] then
+    some (s, { obs := match s.desync with | none => ["ok"] | some d => ["desync", d], branch := "done" })
+  else match cstepCore s kind args impl with
+    | none => none
+    | some (s', out) =>
+      if !impl.isEmpty && out.obs != impl then
+        let d := (s!"{sp args}:model={sp out.obs}:impl={sp impl}").replace " " "_"
+        some ({ s' with desync := s'.desync <|> some d }, { out with obs := impl, branch := out.branch ++ "!desync" })
+      else some (s', out)
+
+def cslotMachine : Machine := { σ := CSt, name := "cslot", init := cinit, step := cslotStep }
+
 end C19
 
-def main (args : List String) : IO UInt32 := runMachines [C19.machine, C19.dmachine] args
+def main (args : List String) : IO UInt32 := runMachines [C19.machine, C19.dmachine, C19.cslotMachine] args
